@@ -668,3 +668,31 @@ Proof. split; [apply k2t_env_ok | apply t2k_env_ok]. Qed.
 
 Lemma domain_example : elliptic_inclined (Kep 26559700 (1 / 100) (PI / 3) 1 4 (-2)).
 Proof. unfold elliptic_inclined; simpl. pose proof PI_RGT_0. repeat split; lra. Qed.
+
+(* ---------------------------------------------------------------- principal ranges of whatever trs2kepler returns
+   (every state, no hypothesis): 0 <= i <= PI, -PI < Omega <= PI, 0 <= omega < 2 PI, -PI < E <= PI *)
+Lemma atan2_nonneg_y y x : 0 <= y -> 0 <= atan2 y x <= PI.
+Proof.
+  intros Hy. pose proof PI_RGT_0 as Hpi.
+  destruct Hy as [Hy | Hy].
+  - rewrite atan2_pos_y by exact Hy. pose proof (atan_bound (x / y)). lra.
+  - subst y. destruct (Rtotal_order x 0) as [Hx | [Hx | Hx]].
+    + rewrite atan2_neg_x_nonneg_y by lra. unfold Rdiv. rewrite Rmult_0_l, atan_0. lra.
+    + subst x. rewrite atan2_0_0. lra.
+    + rewrite atan2_pos_x by lra. unfold Rdiv. rewrite Rmult_0_l, atan_0. lra.
+Qed.
+
+Theorem principal_ranges_thm GM r v :
+  let k := trs2kepler GM r v in 0 <= k_i k <= PI /\ principal k.
+Proof.
+  cbv zeta. unfold principal, trs2kepler; simpl. split; [|split; [|split]].
+  - unfold t2k_i. apply atan2_nonneg_y. apply sqrt_pos.
+  - apply atan2_bound.
+  - unfold t2k_omega. apply wrap_neg_range.
+    pose proof (atan2_bound (vz r) (- vx r * vy (t2k_hu r v) + vy r * vx (t2k_hu r v))) as B1.
+    fold (t2k_u r v) in B1.
+    set (e := t2k_e GM r v). set (E := t2k_E GM r v).
+    pose proof (atan2_bound (sqrt (1 - e * e) * sin E) (cos E - e)) as B2. fold (true_anom e E) in B2.
+    lra.
+  - apply atan2_bound.
+Qed.
